@@ -67,7 +67,7 @@ def st_v1(draw):
         else:
             ops.append(["bar"])
     wallet = {n: draw(st.sampled_from(["0", "1", "1000", "1000000000000"])) for n in names}
-    return {"v": 1, "tokens": tokens, "usdg": str(usdg_total), "glp": str(glp), "aum": str(aum), "interval": draw(st.sampled_from([0.0, 789480314626619.0 / 10**18, 1.5e-5])), "ops": ops, "wallet": wallet}
+    return {"register": draw(st.sampled_from(["once", "once", "later", "twice"])), "v": 1, "tokens": tokens, "usdg": str(usdg_total), "glp": str(glp), "aum": str(aum), "interval": draw(st.sampled_from([0.0, 789480314626619.0 / 10**18, 1.5e-5])), "ops": ops, "wallet": wallet}
 
 
 def body_v1(case, ctx: Ctx):
@@ -75,7 +75,7 @@ def body_v1(case, ctx: Ctx):
 
     broker, m, toks, actions, row = gmx.v1_market(case, case["wallet"])
     cur = copy.deepcopy(case)  # the row the market currently stands on (a 'newrow' op moves it)
-    labels = set()
+    labels = {f"v1.register.{case.get('register', 'once')}"}
     nontrivial = False
     supply = int(Decimal(case["glp"]))
 
